@@ -91,7 +91,8 @@ print(got.hex()); print(exp.hex()); print("equal" if got == exp else "DIFFERENT"
 '''
 
 
-def pbkdf2_line(label, pw, salt, count, dklens, acc):
+def pbkdf2_line(label, pw, salt, count, dklens, acc, light=False, countclass=False):
+    """light: part of a large length product; no sample / output digest is recorded"""
     from Crypto.Protocol import KDF
     pwb, sb = as_bytes(pw), as_bytes(salt)
     h, blk = sizes(label)
@@ -127,7 +128,13 @@ def pbkdf2_line(label, pw, salt, count, dklens, acc):
             out = "exc"
         else:
             out = "ok" if cmp_bytes(acc, kb, what, case, r[1], stream[:dk], script) else "bad"
-        acc.seen("classes", ("pbkdf2", label, path, count, nb, dk % h != 0, pc, sc, out))
+        acc.seen("classes", ("pbkdf2", label, path, count if not countclass else "all-counts", nb, dk % h != 0, pc, sc, out))
+        if nb >= 256:
+            acc.count("pbkdf2/blocks>=256")
+        if nb >= 65536:
+            acc.count("pbkdf2/blocks>=65536")
+    if light:
+        return
     acc.seen("outputs", digest8(stream))
     acc.sample({"part": "pbkdf2", "hash": label, "path": path, "password_len": len(pwb), "salt_len": len(sb),
                 "count": count, "dkLens": "%d..%d (%d values)" % (min(dklens), max(dklens), len(dklens)),
@@ -173,20 +180,56 @@ def pbkdf2_labels():
     return [l for l in ALL_HASHES if have_ref(l)] + list(PRFS)
 
 
+# thorough tier only -----------------------------------------------------------------------------
+PB_DK_BLOCKS = {True: 3, False: 8}          # every dkLen 1..k*hLen+1 (quick: 3, thorough: 8)
+PB_EXTRA_COUNTS = (4, 5, 8, 16, 100)        # all paths, cross grid, every dkLen 1..3h+1
+PB_EXTRA_COUNTS_FAST = (255, 256, 257, 4096)  # C fast path only, cross grid, every dkLen 1..3h+1
+PB_LENS_COUNTS = (1, 2)                     # full password x salt length product
+PB_ALLCOUNTS = {"fast": 1024, "generic": 256, "prf": 256}     # every iteration count 1..n on one shape
+# 65537 output blocks: the library appends block by block (quadratic copying), so only small-hLen PRFs, one per code path
+PB_64K = ("MD5", "SHA1", "SHA256", "RIPEMD160", "SHA3_224", "SHA1.new()", "prf:py-sha3-24", "prf:CMAC-AES")
+
+
+def _cross(label):
+    """one of (password length, salt length) varies over the length grid, the other is 1"""
+    h, blk = sizes(label)
+    if label == "prf:CMAC-AES":
+        return [(p, s) for p in (16, 24, 32) for s in (0, 1, 17)]
+    L = _lens(blk)
+    return [(p, 1) for p in L] + [(1, s) for s in L if s != 1]
+
+
+def _ctr_dklens(h):
+    """output lengths around the block counter values 255, 256, 257 (second counter byte becomes non-zero)"""
+    return (254 * h + 1, 255 * h, 255 * h + 1, 256 * h, 256 * h + 1, 257 * h)
+
+
+def _ctr64k_dklens(h):
+    """65537 blocks: block counters 65535 / 65536 / 65537 (third counter byte becomes non-zero) all contribute to the
+    one output, which is compared in full"""
+    return (65536 * h + 1,)
+
+
+def _lens_pw_range(label):
+    h, blk = sizes(label)
+    return [16, 24, 32] if label == "prf:CMAC-AES" else list(range(0, 2 * blk + 2))
+
+
 def pbkdf2_tasks(quick):
     T = []
     for label in pbkdf2_labels():
         h, blk = sizes(label)
         path = "fast" if label in FAST_EXPECTED else ("prf" if label in PRFS else "generic")
-        alldk = (1, 3 * h + 1)
+        top = PB_DK_BLOCKS[quick] * h + 1
+        alldk = (1, top)
         combos = _combos(label, quick)
         for (p, s) in combos:
             for count in (1, 2, 3):
-                dl = range(1, 3 * h + 2)
+                dl = range(1, top + 1)
                 T.append((_pb_cost(label, count, dl, path),
                           ("pbkdf2", label, ("asc", p), ("seed", s), count, "range", alldk)))
             if path == "fast" and (not quick or p == 1 or s == 1):
-                dl = range(1, 3 * h + 2)
+                dl = range(1, top + 1)
                 T.append((_pb_cost(label, 1000, dl, path),
                           ("pbkdf2", label, ("asc", p), ("seed", s), 1000, "range", alldk)))
         if path != "fast":
@@ -210,8 +253,86 @@ def pbkdf2_tasks(quick):
                         T.append((_pb_cost(label, 1000, range(rg[0], rg[1] + 1), path),
                                   ("pbkdf2", label, ("asc", p), ("seed", s), 1000, "range", rg)))
         T.append((0.02, ("pbkdf2-values", label)))
+        if not quick:
+            # more iteration counts (cross grid, every dkLen 1..3h+1)
+            counts = PB_EXTRA_COUNTS + (PB_EXTRA_COUNTS_FAST if path == "fast" else ())
+            for (p, s) in _cross(label):
+                for count in counts:
+                    T.append((_pb_cost(label, count, range(1, 3 * h + 2), path),
+                              ("pbkdf2", label, ("asc", p), ("seed", s), count, "range", (1, 3 * h + 1))))
+            # block counter 255 -> 256 -> 257 and 65535 -> 65536 -> 65537
+            shapes = [(1, 1), (blk + 1, blk + 1)] if label != "prf:CMAC-AES" else [(16, 1), (32, 17)]
+            for (p, s) in shapes:
+                for count in (1, 2):
+                    T.append((_pb_cost(label, count, _ctr_dklens(h), path) * 2,
+                              ("pbkdf2", label, ("asc", p), ("seed", s), count, "list", _ctr_dklens(h))))
+            if label in PB_64K:
+                pl = 16 if label == "prf:CMAC-AES" else 8
+                T.append((6.0 * h / 16,
+                          ("pbkdf2", label, ("asc", pl), ("seed", 8), 1, "list", _ctr64k_dklens(h))))
+            # complete (password length) x (salt length) product, 0..2B+1 each
+            pws = _lens_pw_range(label)
+            per_line = (2.0e-3 if ref_name(label) == "md2" else 0.8e-3 if ref_name(label) == "md4" else 0.25e-3) \
+                if label in HSPEC else (1.6e-3 if label == "prf:CMAC-AES" else 0.25e-3)
+            nsalt = 2 * blk + 2
+            step = max(1, int(3.0 / (per_line * nsalt)))
+            for count in PB_LENS_COUNTS:
+                for i in range(0, len(pws), step):
+                    chunk = pws[i:i + step]
+                    T.append((per_line * nsalt * len(chunk) * (1 + 0.3 * (count - 1)),
+                              ("pbkdf2-lens", label, count, chunk[0], chunk[-1])))
+            T.append((0.2, ("pbkdf2-values2", label)))
+            # every iteration count 1..n
+            ctop = PB_ALLCOUNTS[path]
+            cstep = ctop // 4
+            slow = {"md2": 12.0, "md4": 5.0}.get(ref_name(label) if label in HSPEC else "", 3.0 if label == "prf:CMAC-AES" else 1.0)
+            for lo in range(1, ctop + 1, cstep):
+                hi = lo + cstep - 1
+                T.append(((lo + hi) / 2.0 * cstep * 2 * (7e-6 if path == "fast" else 40e-6) * slow,
+                          ("pbkdf2-counts", label, lo, hi)))
     T.append((0.05, ("pbkdf2-misc",)))
     return T
+
+
+def t_pbkdf2_lens(t, acc):
+    """every password length x every salt length (0..2B+1 each), dkLen in {hLen, hLen+1}"""
+    _, label, count, plo, phi = t
+    h, blk = sizes(label)
+    salts = [mk(("seed", n), "pbkdf2-salt") for n in range(0, 2 * blk + 2)]
+    for p in _lens_pw_range(label):
+        if not plo <= p <= phi:
+            continue
+        pw = mk(("asc", p))
+        for salt in salts:
+            pbkdf2_line(label, pw, salt, count, (h, h + 1), acc, light=True)
+        acc.count("pbkdf2/lens-rows")
+    acc.sample({"part": "pbkdf2-lens", "hash": label, "count": count, "password_lens": "%d..%d" % (plo, phi),
+                "salt_lens": "0..%d" % (2 * blk + 1), "dkLens": [h, h + 1]})
+
+
+def t_pbkdf2_counts(t, acc):
+    """every iteration count lo..hi on one shape (password B+1 bytes, salt 16 bytes), dkLen hLen+1 (two blocks)"""
+    _, label, lo, hi = t
+    h, blk = sizes(label)
+    pw = mk(("asc", 32 if label == "prf:CMAC-AES" else blk + 1))
+    salt = mk(("seed", 16), "pbkdf2-salt")
+    for count in range(lo, hi + 1):
+        pbkdf2_line(label, pw, salt, count, (h + 1,), acc, light=True, countclass=True)
+    acc.count("pbkdf2/all-counts", hi - lo + 1)
+
+
+def t_pbkdf2_values2(t, acc):
+    """value alphabet on more shapes (thorough)"""
+    label = t[1]
+    h, blk = sizes(label)
+    pls = (16, 24, 32) if label == "prf:CMAC-AES" else (1, blk, blk + 1, 200)
+    for pl in pls:
+        for sl in (0, 16, blk + 1):
+            for count in (1, 3):
+                for pk in ("zero", "ones", "asc", "seed"):
+                    for sk in ("zero", "ones", "asc", "seed"):
+                        pbkdf2_line(label, mk((pk, pl), "pbkdf2-pwv"), mk((sk, sl), "pbkdf2-saltv"), count,
+                                    [h - 1, 2 * h + 1], acc, light=True)
 
 
 def t_pbkdf2(t, acc):
@@ -304,7 +425,8 @@ def probe_fast_path(acc):
 PBKDF1_HASHES = ("MD2", "MD5", "SHA1", "default", "RIPEMD160", "SHA256", "SHA512", "SHA3_256")
 
 
-def pbkdf1_line(label, pw, salt, count, dklens, acc):
+def pbkdf1_line(label, pw, salt, count, dklens, acc, pwclass=False, countclass=False):
+    """pwclass: classify the password by its length class (used by the all-lengths sweep)"""
     from Crypto.Protocol import KDF
     hl = "SHA1" if label == "default" else label
     h = hlen(hl)
@@ -348,9 +470,14 @@ def pbkdf1_line(label, pw, salt, count, dklens, acc):
         else:
             acc.count("pbkdf1/ok")
             out = "ok" if cmp_bytes(acc, "C12/pbkdf1", what, case, r[1], stream[:dk]) else "bad"
-        acc.seen("classes", ("pbkdf1", label, count, len(pwb), len(salt), dk if dk <= 2 else
+        acc.seen("classes", ("pbkdf1", label, count if not countclass else min(count, 4),
+                             lenclass(len(pwb), hblock(hl)) if pwclass else len(pwb),
+                             len(salt), dk if dk <= 2 else
                              ("<h" if dk < h else ("=h" if dk == h else ">h")), out))
     acc.seen("outputs", digest8(stream))
+
+
+PBKDF1_EXTRA_COUNTS = (4, 5, 16, 100, 255, 256, 257)      # thorough
 
 
 def pbkdf1_tasks(quick):
@@ -358,8 +485,40 @@ def pbkdf1_tasks(quick):
     for label in PBKDF1_HASHES:
         for count in (1, 2, 3, 1000):
             T.append((0.5 if (label == "MD2" and count == 1000) else 0.05, ("pbkdf1", label, count, quick)))
+        if not quick:
+            for count in PBKDF1_EXTRA_COUNTS:
+                T.append((0.3 if label == "MD2" else 0.05, ("pbkdf1", label, count, quick)))
+            for count in (1, 2, 3):
+                T.append((0.1 if label == "MD2" else 0.03, ("pbkdf1-lens", label, count)))
+            T.append((10.0 if label == "MD2" else 0.5, ("pbkdf1-counts", label)))
     T.append((0.01, ("pbkdf1-misc",)))
     return T
+
+
+PBKDF1_ALLCOUNTS = 256
+
+
+def t_pbkdf1_counts(t, acc):
+    """every iteration count 1..256, dkLen hLen and hLen-1"""
+    label = t[1]
+    h = hlen("SHA1" if label == "default" else label)
+    pw, salt = mk(("asc", 9)), mk(("seed", 8), "pbkdf1-salt")
+    for count in range(1, PBKDF1_ALLCOUNTS + 1):
+        pbkdf1_line(label, pw, salt, count, [h - 1, h], acc, countclass=True)
+    acc.count("pbkdf1/all-counts", PBKDF1_ALLCOUNTS)
+
+
+def t_pbkdf1_lens(t, acc):
+    """every password length 0..2B+1 (B = block size of the hash) x 4 salt values, dkLen in {0,1,h-1,h} and h+1 refused"""
+    _, label, count = t
+    hl = "SHA1" if label == "default" else label
+    h, blk = hlen(hl), hblock(hl)
+    salts = [mk((k, 8), "pbkdf1-salt") for k in ("seed", "zero", "ones", "asc")]
+    for n in range(0, 2 * blk + 2):
+        pw = mk(("asc", n))
+        for salt in (salts if n in (0, 1, blk - 1, blk, blk + 1) else salts[:1]):
+            pbkdf1_line(label, pw, salt, count, [0, 1, h - 1, h, h + 1], acc, pwclass=True)
+    acc.count("pbkdf1/lens-sweeps")
 
 
 def t_pbkdf1(t, acc):
@@ -392,7 +551,7 @@ def t_pbkdf1_misc(t, acc):
 # ---------------------------------------------------------------------------
 # HKDF
 # ---------------------------------------------------------------------------
-def hkdf_line(label, master, salt, context, cases, acc):
+def hkdf_line(label, master, salt, context, cases, acc, light=False):
     from Crypto.Protocol import KDF
     h, blk = hlen(label), hblock(label)
     limit = 255 * h
@@ -442,6 +601,8 @@ def hkdf_line(label, master, salt, context, cases, acc):
             out = "ok" if ok else "bad"
         acc.seen("classes", ("hkdf", label, nk, min(nb, 5) if nb < 254 else nb, total % h != 0, sclass,
                              "none" if context is None else min(len(context), 2), lenclass(len(master), blk), out))
+    if light:
+        return
     acc.seen("outputs", digest8(stream))
     acc.sample({"part": "hkdf", "hash": label, "master_len": len(master), "salt": sclass,
                 "cases": len(cases), "stream": stream[:16]})
@@ -449,6 +610,22 @@ def hkdf_line(label, master, salt, context, cases, acc):
 
 def hkdf_labels():
     return [l for l in ALL_HASHES if have_ref(l)]
+
+
+HKDF_NK = {True: (2, 3, 4), False: (2, 3, 4, 5, 6, 7, 8)}
+
+
+def _hkdf_all_chunks(h, pieces=24):
+    """cut 0..255h+2 into ranges of about equal total output (cost ~ key_len)"""
+    top = 255 * h + 2
+    total = top * (top + 1) // 2
+    out, lo, run = [], 0, 0
+    for kl in range(0, top + 1):
+        run += kl + 8 * h
+        if run >= (total + 8 * h * (top + 1)) / pieces or kl == top:
+            out.append((lo, kl))
+            lo, run = kl + 1, 0
+    return out
 
 
 def hkdf_tasks(quick):
@@ -460,10 +637,58 @@ def hkdf_tasks(quick):
             for ci in range(5):
                 if quick and not (si == 2 or ci == 1):
                     continue
-                T.append((0.1 * h / 32 * (1 if quick else 2.5), ("hkdf-grid", label, si, ci, quick)))
+                T.append((0.1 * h / 32 * (1 if quick else 1.6), ("hkdf-grid", label, si, ci, quick)))
         T.append((0.4 + 0.1 * slow, ("hkdf-bound", label)))
         T.append((0.02, ("hkdf-lens", label)))
+        if not quick:
+            ch = _hkdf_all_chunks(h)
+            for lo, hi in ch:
+                T.append((0.7 * h / 32 * (1.6 if h > 32 else 1.0) * 24.0 / len(ch), ("hkdf-all", label, lo, hi)))
+            T.append((0.2 + 0.03 * slow, ("hkdf-bound2", label)))
+            T.append((0.3, ("hkdf-lines", label)))
     return T
+
+
+def t_hkdf_all(t, acc):
+    """every key_len lo..hi of 0..255*hLen+2 with num_keys = 1 (the last two are refused)"""
+    _, label, lo, hi = t
+    h = hlen(label)
+    hkdf_line(label, mk(("asc", 22)), mk(("seed", h), "hkdf-salt"), mk(("asc", 10)),
+              [(kl, 1) for kl in range(lo, hi + 1)], acc)
+    acc.count("hkdf/all-lengths", hi - lo + 1)
+
+
+def t_hkdf_bound2(t, acc):
+    """many keys: num_keys 5..8 around floor(255h/nk); num_keys 255, 256, 255h, 255h+1, h keys of 255/256 bytes"""
+    label = t[1]
+    h = hlen(label)
+    limit = 255 * h
+    cases = []
+    for nk in (5, 6, 7, 8, 16, 255):
+        k0 = limit // nk
+        cases += [(k0 - 1, nk), (k0, nk), (k0 + 1, nk)]
+    cases += [(h - 1, 255), (h, 256), (1, limit - 1), (1, limit), (1, limit + 1), (2, limit // 2), (2, limit // 2 + 1),
+              (255, h), (256, h), (255, h + 1), (254, h), (1, 256), (1, 257)]
+    for salt, ctxv in ((None, None), (mk(("seed", h + 1), "hkdf-salt"), mk(("seed", 200), "hkdf-ctx"))):
+        hkdf_line(label, mk(("seed", 32), "hkdf-master"), salt, ctxv, cases, acc)
+
+
+def t_hkdf_lines(t, acc):
+    """every master / salt / context length 0..2B+1 (one of them varies at a time)"""
+    label = t[1]
+    h, blk = hlen(label), hblock(label)
+    top = 2 * blk + 2
+    short_cases = [(h + 1, 1), (h, 2)]
+    for ml in range(top):
+        for salt in (None, mk(("seed", 1), "hkdf-salt"), mk(("seed", blk + 1), "hkdf-salt")):
+            hkdf_line(label, mk(("asc", ml)), salt, b"ctx", short_cases, acc, light=True)
+    for sl in range(top):
+        for ml in (0, 22):
+            hkdf_line(label, mk(("asc", ml)), mk(("seed", sl), "hkdf-salt"), b"ctx", short_cases, acc, light=True)
+    for cl in range(top):
+        hkdf_line(label, mk(("asc", 22)), mk(("seed", h), "hkdf-salt"), mk(("seed", cl), "hkdf-ctx"),
+                  [(1, 1), (h + 1, 1), (2 * h + 1, 1), (h, 3)], acc, light=True)
+    acc.count("hkdf/length-lines", 3 * top)
 
 
 def _hkdf_salt(label, i):
@@ -481,7 +706,7 @@ def t_hkdf_grid(t, acc):
     h = hlen(label)
     cases = [(0, 1)] + [(kl, 1) for kl in range(1, 3 * h + 2)]
     top = h + 1 if quick else 3 * h + 1
-    for nk in (2, 3, 4):
+    for nk in HKDF_NK[bool(quick)]:
         cases += [(kl, nk) for kl in range(1, top + 1)]
     hkdf_line(label, mk(("asc", 22)), _hkdf_salt(label, si), _hkdf_ctx(ci), cases, acc)
 
@@ -541,7 +766,7 @@ def _sp_prfs(label):
     raise HarnessError("unknown SP800-108 prf %r" % label)
 
 
-def sp108_line(label, master, lab, context, cases, acc):
+def sp108_line(label, master, lab, context, cases, acc, light=False):
     from Crypto.Protocol import KDF
     h = SP_PRFS[label][0]
     lprf, rprf = _sp_prfs(label)
@@ -579,7 +804,11 @@ def sp108_line(label, master, lab, context, cases, acc):
             out = "ok" if ok else "bad"
         nb = -(-total // h)
         acc.seen("classes", ("sp108", label, nk, min(nb, 6), total % h != 0, min(len(lab), 2), min(len(context), 2),
-                             len(master), out))
+                             len(master) if not light else lenclass(len(master), _sp_block(label)), out))
+        if nb >= 256:
+            acc.count("sp108/blocks>=256")
+    if light:
+        return
     acc.seen("outputs", digest8(stream))
     acc.sample({"part": "sp800-108", "prf": label, "master_len": len(master), "label_len": len(lab),
                 "context_len": len(context), "cases": len(cases)})
@@ -607,10 +836,58 @@ def sp108_tasks(quick):
                 for ci in range(len(_SP_CTX)):
                     if quick and not (li == 1 or ci == 1):
                         continue
-                    T.append(((0.03 if quick else 0.08) * h / 32 * (4 if label.startswith("CMAC") else 1),
+                    T.append(((0.03 if quick else 0.2) * h / 32 * (4 if label.startswith("CMAC") else 1),
                               ("sp108", label, ml, li, ci, quick)))
+        if not quick:
+            T.append(((0.6 if label.startswith("CMAC") else 0.3) + ((10.0 if label.startswith("CMAC") else 6.0)
+                                                                     if label in SP_64K else 0), ("sp108-ctr", label)))
+            T.append((0.15, ("sp108-lines", label)))
     T.append((0.01, ("sp108-misc",)))
     return T
+
+
+def _sp_block(label):
+    """block size of the PRF's underlying primitive (for length classes and sweeps)"""
+    if label.startswith("HMAC-"):
+        return hblock(label[5:])
+    return 16 if label.startswith("CMAC-") else 128
+
+
+# 65537 PRF blocks (third counter byte): the library appends block by block (quadratic copying): small outputs only
+SP_64K = ("HMAC-SHA1", "HMAC-MD5", "CMAC-AES128", "py-blake2b-24")
+SP_NK = {True: (2, 3, 4), False: (2, 3, 4, 5, 6, 7, 8)}
+
+
+def t_sp108_ctr(t, acc):
+    """counter field [i]_32: 255/256/257 and 65535/65536/65537 PRF blocks, as one key and as many keys"""
+    label = t[1]
+    h, mls = SP_PRFS[label]
+    master = mk(("seed", mls[0] if label.startswith("CMAC") else 16), "sp-master")
+    cases = [(254 * h + 1, None), (255 * h, None), (255 * h + 1, None), (256 * h, None), (256 * h + 1, 1), (257 * h, None),
+             (h, 255), (h, 256), (h, 257), (h + 1, 255), (1, 255 * h + 1), (1, 256 * h + 1), (255, h + 1), (257, h),
+             ]
+    if label in SP_64K:
+        cases += [(65536 * h + 1, None), (h, 65537)]
+    sp108_line(label, master, b"label", b"context", cases, acc)
+
+
+def t_sp108_lines(t, acc):
+    """every label / context / master length 0..2B+1 (one of them varies at a time)"""
+    label = t[1]
+    h, mls = SP_PRFS[label]
+    blk = _sp_block(label)
+    top = 2 * blk + 2
+    cases = [(1, None), (h + 1, None), (h, 2)]
+    master = mk(("seed", mls[0] if label.startswith("CMAC") else 16), "sp-master")
+    for n in range(top):
+        sp108_line(label, master, _spv(("seed", n), "sp-label"), b"C", cases, acc, light=True)
+        sp108_line(label, master, b"L", _spv(("seed", n), "sp-ctx"), cases, acc, light=True)
+        sp108_line(label, master, _spv(("seed", n), "sp-label"), _spv(("seed", top - 1 - n), "sp-ctx"), cases, acc,
+                   light=True)
+    if not label.startswith("CMAC"):
+        for n in range(top):
+            sp108_line(label, mk(("asc", n)), b"L", b"C", cases, acc, light=True)
+    acc.count("sp108/length-lines", 3 * top)
 
 
 class _Captured(Exception):
@@ -648,10 +925,10 @@ def t_sp108_misc(t, acc):
 def t_sp108(t, acc):
     _, label, ml, li, ci, quick = t
     h = SP_PRFS[label][0]
-    cases = [(kl, None) for kl in range(1, 3 * h + 2)]
+    cases = [(kl, None) for kl in range(1, (3 if quick else 6) * h + 2)]
     cases += [(kl, 1) for kl in ((1, h, h + 1) if quick else range(1, 3 * h + 2))]
     top = h + 1 if quick else 3 * h + 1
-    for nk in (2, 3, 4):
+    for nk in SP_NK[bool(quick)]:
         cases += [(kl, nk) for kl in range(1, top + 1)]
     master = mk(("asc", ml)) if not label.startswith("CMAC") else mk(("seed", ml), "sp-master")
     sp108_line(label, master, _spv(_SP_LABELS[li], "sp-label"), _spv(_SP_CTX[ci], "sp-ctx"), cases, acc)
